@@ -726,20 +726,27 @@ namespace jsoncons {
             {
                 json_array<Json> temp(get_allocator());
 
-                for (auto& kv : data_)
+                JSONCONS_TRY
                 {
-                    switch (kv.value().storage_kind())
+                    for (auto& kv : data_)
                     {
-                        case json_storage_kind::array:
-                        case json_storage_kind::object:
-                            if (!kv.value().empty())
-                            {
-                                temp.emplace_back(std::move(kv.value()));
-                            }
-                            break;
-                        default:
-                            break;
+                        switch (kv.value().storage_kind())
+                        {
+                            case json_storage_kind::array:
+                            case json_storage_kind::object:
+                                if (!kv.value().empty())
+                                {
+                                    temp.emplace_back(std::move(kv.value()));
+                                }
+                                break;
+                            default:
+                                break;
+                        }
                     }
+                }
+                JSONCONS_CATCH(...)
+                {
+                    // out of memory while flattening, the remaining members are destroyed recursively
                 }
             }
         }
